@@ -32,8 +32,8 @@ mod verif_c12 {
     #[kani::unwind(8)]
     fn c12_grammar_merge_contiguous() {
         // merged grammar so far: two system POS and one POS registered by a plugin or an earlier user dictionary
-        let (s0, s1, p0) = (tag(), tag(), tag());
-        kani::assume(s0 != s1 && p0 != s0 && p0 != s1);
+        // (their tags are concrete - only the user dictionary's tags need to vary to produce every equality pattern)
+        let (s0, s1, p0) = (b'a', b'b', b'c');
         let mut g = empty_grammar();
         g.pos_list.push(pos(s0));
         g.pos_list.push(pos(s1));
